@@ -238,6 +238,31 @@ def run(ctx: Ctx):
                       bad_detail=f"{cs.external}() is used for something else than the size of the worker pool (reached via {' -> '.join(path[-3:])}): "
                                  f"whatever is derived from it (batch boundaries, order of a floating-point accumulation) makes the result depend on the "
                                  f"number of workers", key=f"machine:{qn}")
+    # the pool remembers the size it was given: reading it back (`pool._max_workers`, `pool._processes`) is reading the core count again,
+    # unless every pool of the package is created with a literal size
+    POOL_SIZE_ATTRS = ("_max_workers", "_processes")
+    literal_pools = True
+    for g in M.functions.values():
+        if isinstance(g.node, ast.Lambda):
+            continue
+        for c in walk_no_nested(g.node):
+            if isinstance(c, ast.Call) and norm(c.func).split(".")[-1] in ("ThreadPoolExecutor", "ProcessPoolExecutor", "Pool"):
+                size = (c.args[0] if c.args else None) or next((k.value for k in c.keywords if k.arg in ("max_workers", "processes")), None)
+                if not (isinstance(size, ast.Constant) and isinstance(size.value, int) and not isinstance(size.value, bool)):
+                    literal_pools = False
+    for qn, path in sorted(p.reachable(roots).items()):
+        f = M.functions.get(qn)
+        if f is None or isinstance(f.node, ast.Lambda):
+            continue
+        in_logging = {id(x) for c in walk_no_nested(f.node) if isinstance(c, ast.Call) and norm(c.func).split(".")[0] in ("logging", "logger", "log", "warnings")
+                      for x in ast.walk(c)}
+        for x in walk_no_nested(f.node):
+            if isinstance(x, ast.Attribute) and x.attr in POOL_SIZE_ATTRS and isinstance(x.ctx, ast.Load):
+                n_machine += 1
+                ctx.check(literal_pools or id(x) in in_logging, "R-C06-8", f, x, f"`{norm(x)}` is only reported, or every pool has a literal size",
+                          bad_detail=f"`{norm(x)}` is the size the worker pool was given, i.e. the machine's core count (reached via {' -> '.join(path[-3:])}): whatever is "
+                                     f"derived from it (batch boundaries, grouping of a floating-point mean) makes the result depend on the number of workers",
+                          key=f"machine:{qn}:{x.attr}")
     ctx.ok("R-C06-8", None, None, f"{n_machine} use(s) of the machine's core count in code reachable from a gamma computation, all sizing a pool",
            construct="(sweep)")
 
